@@ -111,7 +111,18 @@ static DistP construct(const Cfg& c)
     size_t k = c.svals.size();
     std::vector<double> vals(k);
     for (size_t i = 0; i < k; ++i) vals[i] = c.get("V" + std::to_string(i + 1));
-    return DistP(new bpp::SimpleDiscreteDistribution(vals, thetasToProbs(c, k)));
+    bool dup = false;
+    for (size_t i = 0; i < k; ++i)
+      for (size_t j = i + 1; j < k; ++j)
+        if (vals[i] == vals[j]) dup = true;
+    if (!dup) return DistP(new bpp::SimpleDiscreteDistribution(vals, thetasToProbs(c, k)));
+    // The constructor refuses equal values, a parameter update separates them by the precision: the fresh object
+    // is built on the initial (distinct) values and receives all current parameter values in one bulk update.
+    DistP d(new bpp::SimpleDiscreteDistribution(c.svals, thetasToProbs(c, k)));
+    bpp::ParameterList pl;
+    for (const auto& p : c.par) pl.addParameter(bpp::Parameter(d->getNamespace() + p.first, p.second));
+    d->matchParametersValues(pl);
+    return d;
   }
   if (c.fam == "invariant")
     return DistP(new bpp::InvariantMixedDiscreteDistribution(construct(c.inner[0]), c.get("p"), c.invariant));
@@ -900,6 +911,7 @@ public:
       const Cfg& c = cfgOf(t);
       size_t i = static_cast<size_t>(atoi(nm.c_str() + 1)) - 1, k = c.svals.size();
       double cur = c.get(nm);
+      if (k > 1 && rng.chance(1, 6)) return c.get("V" + std::to_string(1 + (i + 1 + rng.below(k - 1)) % k)); // exactly another class value
       double lo = i > 0 ? c.get("V" + std::to_string(i)) : cur - 1;
       double hi = i + 1 < k ? c.get("V" + std::to_string(i + 2)) : cur + 1;
       return lo + (hi - lo) * (0.1 + 0.8 * rng.unit());
@@ -1269,6 +1281,44 @@ public:
       doSetParam({{Target(-1, "p"), 0.25}}, 0);
       doSetN(n + 1);
       doSetMedian(true);
+    }
+    // user-specified values updated so that one coincides EXACTLY with another (the update separates them by the
+    // precision; the class count stays), the last one in particular; then moved apart again
+    for (size_t k : {size_t(2), size_t(3), size_t(5)})
+      for (int which = 0; which < 2; ++which)
+      {
+        Cfg c;
+        c.fam = "simple";
+        c.n = k;
+        for (size_t i = 0; i < k; ++i)
+        {
+          double v = 0.5 + static_cast<double>(i);
+          c.svals.push_back(v);
+          c.par.push_back({"V" + std::to_string(i + 1), v});
+          if (i + 1 < k) c.par.push_back({"theta" + std::to_string(i + 1), 0.2});
+        }
+        reset();
+        if (!doConstruct(c)) continue;
+        std::string moved = which == 0 ? "V" + std::to_string(k) : "V1";
+        double onto = which == 0 ? 0.5 : 0.5 + static_cast<double>(k - 1);
+        doSetParam({{Target(-1, moved), onto}}, 0);
+        doSetParam({{Target(-1, "theta1"), 0.3}}, 1);
+        doSetParam({{Target(-1, moved), 7.25}}, 2);
+      }
+    // gamma with offset: a restriction that cuts nothing yet ([1, inf[ while the offset is 2) must be remembered:
+    // when the offset drops below it, the domain starts at the restriction
+    for (size_t n : {size_t(1), size_t(4)})
+    {
+      Cfg c;
+      c.fam = "gammaoff";
+      c.n = n;
+      c.par = {{"alpha", 2.0}, {"beta", 1.0}, {"offset", 2.0}};
+      reset();
+      if (!doConstruct(c)) continue;
+      doRestrict(Restr{1.0, 2 * bpp::NumConstants::VERY_BIG(), true, false});
+      doSetParam({{Target(-1, "offset"), 0.0}}, 0);
+      doSetParam({{Target(-1, "offset"), 1.5}}, 1);
+      doSetParam({{Target(-1, "offset"), -3.0}, {Target(-1, "alpha"), 3.0}}, 2);
     }
     // two components of a mixture made identical by a parameter change (their classes coincide and must
     // share the probability), then moved apart again
